@@ -168,6 +168,13 @@ def Qty.to (env : ι → UnitInfo V) (q : Qty ι V) (b : BU ι) : Except String 
   let m ← convert env q.mag q.units b
   pure ⟨m, b⟩
 
+/-- `q.to(target)` with a `Quantity` target (also `Unit().x`, a quantity of magnitude 1):
+    `self._convert(self.magnitude, self.baseunits, target.baseunits) / target.magnitude`,
+    i.e. the value in multiples of the reference quantity. -/
+def Qty.toQ (env : ι → UnitInfo V) (q t : Qty ι V) : Except String (Qty ι V) := do
+  let m ← convert env q.mag q.units t.units
+  pure ⟨m.div t.mag, t.units⟩
+
 /-- `Quantity._add` / `_sub` with `UnitType.add` / `sub` -/
 def Qty.addsub (env : ι → UnitInfo V) (op : Mag V → Mag V → Mag V) (l r : Qty ι V) :
     Except String (Qty ι V) :=
